@@ -35,17 +35,17 @@ func rwAddr(m *sync.RWMutex) uintptr  { return uintptr(unsafe.Pointer(m)) }
 type Kind int
 
 const (
-	KStart  Kind = iota // task created, not yet run
-	KYield              // plain scheduling point
-	KWoke               // after a blocking operation returned
-	KLock               // wants Lock on obj
-	KRLock              // wants RLock on obj
-	KSelect             // wants a priority order for n select cases
-	KNow                // wants a clock tick, then reads the clock
-	KFS                 // file-system operation (fault point)
-	KChoice             // wants a number in [0,n)
-	KTryLock            // TryLock on obj: answered by the lock model
-	KTryRLock           // TryRLock on obj
+	KStart    Kind = iota // task created, not yet run
+	KYield                // plain scheduling point
+	KWoke                 // after a blocking operation returned
+	KLock                 // wants Lock on obj
+	KRLock                // wants RLock on obj
+	KSelect               // wants a priority order for n select cases
+	KNow                  // wants a clock tick, then reads the clock
+	KFS                   // file-system operation (fault point)
+	KChoice               // wants a number in [0,n)
+	KTryLock              // TryLock on obj: answered by the lock model
+	KTryRLock             // TryRLock on obj
 )
 
 var kindNames = [...]string{"start", "yield", "woke", "lock", "rlock", "select", "now", "fs", "choice", "trylock", "tryrlock"}
@@ -145,7 +145,7 @@ type FSAnswer struct {
 // Sim is one simulated run.
 type Sim struct {
 	rootGid uint64
-	Tape *Tape
+	Tape    *Tape
 
 	tasks  []*Task
 	slots  [1024]*Task
@@ -164,11 +164,11 @@ type Sim struct {
 	prio      map[int]int
 
 	// Hooks, all run on the scheduler goroutine.
-	OnQuiesce func(s *Sim)                  // after every quiescence, before picking
-	FSFault   func(s *Sim, op FSOp) FSAnswer // fault plan for file-system calls
-	MaxTick   int64                          // ns; simrt.Now() tick is 1..MaxTick
-	TimeBudget time.Duration                 // how far the clock may be advanced while idle
-	CrashAtStep int                          // >0: stop scheduling at this step ("process killed")
+	OnQuiesce   func(s *Sim)                   // after every quiescence, before picking
+	FSFault     func(s *Sim, op FSOp) FSAnswer // fault plan for file-system calls
+	MaxTick     int64                          // ns; simrt.Now() tick is 1..MaxTick
+	TimeBudget  time.Duration                  // how far the clock may be advanced while idle
+	CrashAtStep int                            // >0: stop scheduling at this step ("process killed")
 
 	Crashed   bool
 	Stuck     bool
@@ -178,11 +178,11 @@ type Sim struct {
 	Epoch     time.Time
 	idleSlept time.Duration
 
-	wake      chan struct{}
-	traceHash uint64
-	traceSum  uint64
+	wake         chan struct{}
+	traceHash    uint64
+	traceSum     uint64
 	YieldsByKind [len(kindNames)]int
-	Deadlock  string
+	Deadlock     string
 
 	FS *FSState
 }
@@ -1161,12 +1161,12 @@ func TryRLock(m *sync.RWMutex, site string) bool {
 
 // Method values (unlock := mu.Unlock): the receiver is bound now, the
 // operation goes through the simulator when the value is called.
-func MVLock(m *sync.Mutex, site string) func()       { return func() { Lock(m, site) } }
-func MVUnlock(m *sync.Mutex, site string) func()     { return func() { Unlock(m, site) } }
-func MVRWLock(m *sync.RWMutex, site string) func()   { return func() { RWLock(m, site) } }
-func MVRWUnlock(m *sync.RWMutex, site string) func() { return func() { RWUnlock(m, site) } }
-func MVRLock(m *sync.RWMutex, site string) func()    { return func() { RLock(m, site) } }
-func MVRUnlock(m *sync.RWMutex, site string) func()  { return func() { RUnlock(m, site) } }
+func MVLock(m *sync.Mutex, site string) func()        { return func() { Lock(m, site) } }
+func MVUnlock(m *sync.Mutex, site string) func()      { return func() { Unlock(m, site) } }
+func MVRWLock(m *sync.RWMutex, site string) func()    { return func() { RWLock(m, site) } }
+func MVRWUnlock(m *sync.RWMutex, site string) func()  { return func() { RWUnlock(m, site) } }
+func MVRLock(m *sync.RWMutex, site string) func()     { return func() { RLock(m, site) } }
+func MVRUnlock(m *sync.RWMutex, site string) func()   { return func() { RUnlock(m, site) } }
 func MVWGDone(wg *sync.WaitGroup, site string) func() { return func() { WGDone(wg, site) } }
 func MVWGWait(wg *sync.WaitGroup, site string) func() { return func() { WGWait(wg, site) } }
 
